@@ -456,6 +456,47 @@ impl<'tcx> Dumper<'tcx> {
                         }
                     }
                 }
+                // a `&str` / `&[u8]` stored inside a larger constant (a table of names): follow the fat pointer
+                if out.is_none() && ints.is_none() {
+                    if let ty::Ref(_, inner, _) = t.kind() {
+                        let is_bytes = inner.is_str()
+                            || matches!(inner.kind(), ty::Slice(e) if matches!(e.kind(), ty::Uint(ty::UintTy::U8)));
+                        if is_bytes {
+                            if let rustc_middle::mir::interpret::GlobalAlloc::Memory(a) = tcx.global_alloc(alloc_id) {
+                                let a = a.inner();
+                                let ps = tcx.data_layout.pointer_size();
+                                let start = offset.bytes() as usize;
+                                let psz = ps.bytes() as usize;
+                                if start + 2 * psz <= a.len() {
+                                    // length word (little-endian target)
+                                    let lb = a.inspect_with_uninit_and_ptr_outside_interpreter(start + psz..start + 2 * psz);
+                                    let mut n: usize = 0;
+                                    for k in 0..psz {
+                                        n |= (lb[k] as usize) << (8 * k);
+                                    }
+                                    // pointer: provenance names the target allocation, the stored bytes its offset
+                                    let pb = a.inspect_with_uninit_and_ptr_outside_interpreter(start..start + psz);
+                                    let mut poff: usize = 0;
+                                    for k in 0..psz {
+                                        poff |= (pb[k] as usize) << (8 * k);
+                                    }
+                                    if let Some(prov) = a.provenance().get_ptr(offset) {
+                                        if let rustc_middle::mir::interpret::GlobalAlloc::Memory(ta) = tcx.global_alloc(prov.alloc_id()) {
+                                            let ta = ta.inner();
+                                            if poff + n <= ta.len() && n <= 4096 {
+                                                let b = ta.inspect_with_uninit_and_ptr_outside_interpreter(poff..poff + n);
+                                                return J::Obj(vec![
+                                                    ("ty", num(self.ty(t))),
+                                                    ("bytes", J::Arr(b.iter().map(|x| num(*x)).collect())),
+                                                ]);
+                                            }
+                                        }
+                                    }
+                                }
+                            }
+                        }
+                    }
+                }
                 match (out, ints) {
                     (Some(b), _) => J::Obj(vec![("ty", num(self.ty(t))), ("array_bytes", b)]),
                     (None, Some(v)) => J::Obj(vec![("ty", num(self.ty(t))), ("array_bytes", v)]),
